@@ -1,17 +1,50 @@
 """Helpers shared by property plug-ins: run implementation + model + spec oracle and diff."""
 import common as C
+from fncodes import FN
+
+
+def model_for_profile(cases, profile):
+    """model results; for the dev profile use the Checked-mode entry (prefix chk_) where one exists"""
+    if profile == "release":
+        return C.run_model(cases)
+    chk = [c for c in cases if ("chk_" + c.fn) in FN]
+    rel = [c for c in cases if ("chk_" + c.fn) not in FN]
+    r1 = C.run_model(chk, prefix="chk_") if chk else []
+    r2 = C.run_model(rel) if rel else []
+    it1, it2 = iter(r1), iter(r2)
+    return [next(it1) if ("chk_" + c.fn) in FN else next(it2) for c in cases]
 
 
 def diff_impl_model(cases, profiles=("release",), group=""):
-    """returns (impl results of the first profile, disagreements)"""
-    model = C.run_model(cases)
+    """returns (impl results of the first profile, model results of the first profile, disagreements)"""
     dis = []
     first = None
+    first_model = None
     for prof in profiles:
         impl = C.run_impl(cases, prof)
+        model = model_for_profile(cases, prof)
         if first is None:
-            first = impl
+            first, first_model = impl, model
         for c, i, m in zip(cases, impl, model):
             if C.canon(i) != C.canon(m):
                 dis.append({"input": c.impl_line(), "impl": i, "model": m, "profile": prof, "group": group})
-    return first, model, dis
+    return first, first_model, dis
+
+
+def all_profiles_impl(cases, profiles):
+    return {p: C.run_impl(cases, p) for p in profiles}
+
+
+def boundary_values(rng, extra=()):
+    """values adjacent to every power of two and limit that appears in the code"""
+    vals = set()
+    for k in (0, 1, 2, 3, 7, 8, 15, 16, 23, 24, 31, 32, 39, 40, 47, 48, 63, 64):
+        for d in (-2, -1, 0, 1, 2):
+            v = (1 << k) + d
+            if 0 <= v < (1 << 64):
+                vals.add(v)
+    for lim in (56403, 942574504275, 16777216, 65535, 255, 1048576, 4294967296) + tuple(extra):
+        for d in (-2, -1, 0, 1, 2):
+            if 0 <= lim + d < (1 << 64):
+                vals.add(lim + d)
+    return sorted(vals)
